@@ -16,7 +16,7 @@ cargo build --offline 2>&1 | tail -1
 cargo build --offline --release 2>&1 | tail -1 | grep -q Finished || { echo "CONFIRM-FAIL: release build"; exit 1; }
 SUITE=$(cargo nextest run --workspace --no-fail-fast --tool-config-file pb:/w/lib/nextest.toml --profile pb --test-threads 8 --offline 2>&1 | grep -E "Summary" )
 echo "suite with change: $SUITE"
-echo "$SUITE" | grep -q "131 tests run: 131 passed" || { echo "CONFIRM-FAIL: suite does not pass with the change"; exit 1; }
+echo "$SUITE" | grep -Eq "13[1-9] tests run: 13[1-9] passed" && ! echo "$SUITE" | grep -q failed || { echo "CONFIRM-FAIL: suite does not pass with the change"; exit 1; }
 DOC=$(cargo test --offline --doc 2>&1 | grep "test result" | tail -1)
 echo "doctests with change: $DOC"
 if [ -n "$FEAT" ]; then
